@@ -83,6 +83,28 @@ def static_graph(ctx):
         feats = tomllib.load(fh).get("features", {})
     for f in QF:
         ctx.ob("feature-declared", f, f in feats, "feature %s missing from [features]" % f, "Cargo.toml")
+    # an optional dependency (and with it a back-end / representation switch) may only be
+    # activated by its namesake feature: `serde = [.., "fpdec/x"]` would silently turn on
+    # the decimal back-end whenever serde is enabled (weak edges `dep?/x` are fine)
+    with open(os.path.join(facts.REPO, "Cargo.toml"), "rb") as fh:
+        deps = tomllib.load(fh).get("dependencies", {})
+    optional = {d for d, v in deps.items() if isinstance(v, dict) and v.get("optional")}
+    for f, items in feats.items():
+        for it in items:
+            dep = None
+            if it.startswith("dep:"):
+                dep = it[4:]
+            elif "/" in it and "?/" not in it:
+                dep = it.split("/")[0]
+            elif it in optional and it not in feats:
+                dep = it
+            if dep in optional:
+                ctx.ob("dependency-activation", "%s->%s" % (f, it), f == dep,
+                       "feature `%s` activates the optional dependency `%s` (entry %r): enabling `%s` would switch on `%s` and change the amount type / "
+                       "results of existing operations" % (f, dep, it, f, dep), "Cargo.toml [features] %s" % f)
+    for f in QF + ["std", "default"]:
+        bad = [d for d in optional if d in closure(feats, f) and d != f]
+        ctx.ob("dependency-activation", "closure/%s" % f, not bad, "feature %s transitively enables optional dependencies %s" % (f, bad), "Cargo.toml", nontrivial=False)
     _ds, raw = D.all_decls()
     files = {os.path.relpath(f["file"], facts.REPO): f for f in raw["files"]}
     lib = files.get("src/lib.rs")
@@ -211,6 +233,13 @@ def run(ctx):
     ctx.configs += ["f64-all", "dec-all"]
     k = additivity(ctx, "none", "f64-all")
     ctx.floor("bodies shared by `none` and `f64-all`", k, 100)
+    # enabling serde on top of the full f64 configuration must not change any existing body
+    # (in particular not the amount type)
+    k3 = additivity(ctx, "f64-all", "f64-serde")
+    ctx.floor("bodies shared by `f64-all` and `f64-serde`", k3, 700)
+    a_feats = set(facts.factset("f64-serde").get("quantities").features)
+    ctx.ob("serde-does-not-enable-fpdec", "f64-serde", "fpdec" not in a_feats,
+           "building with `--features \"doc serde\"` has cfg(feature = \"fpdec\") on: %s" % sorted(a_feats), "Cargo.toml")
     if ctx.tier == "thorough":
         k2 = additivity(ctx, "dec-none", "dec-all")
         for f in QF:
